@@ -179,10 +179,20 @@ def run(mod, check, prop, args, scratch, t0):
 
     rep_dir = os.path.join(OUT, "replays", prop)
     replay_paths = []
+    total_new = len(new)
     if new:
         os.makedirs(rep_dir, exist_ok=True)
-        # deduplicate by 'what' class to keep the output readable; keep at most 20 replays
-        for n, v in enumerate(new[:20]):
+        # group by the message with numbers and quoted literals stripped; one replay per group, at most 25 groups
+        import re
+        groups = {}
+        for v in new:
+            g = re.sub(r"'[^']*'|\"[^\"]*\"|0x[0-9a-fA-F]+|\d+", "#", v["what"])[:100]
+            groups.setdefault(g, []).append(v)
+        new = []
+        for g, vs in sorted(groups.items(), key=lambda kv: -len(kv[1]))[:25]:
+            vs[0]["what"] = f"[{len(vs)}x] " + vs[0]["what"]
+            new.append(vs[0])
+        for n, v in enumerate(new):
             path = os.path.join(rep_dir, f"{args.tier}-seed{args.seed}-{n}.json")
             with open(path, "w", encoding="utf-8") as f:
                 json.dump({"property": prop, "what": v["what"], "case": v["case"], "hashseed": v.get("hashseed", "0"),
@@ -215,14 +225,14 @@ def run(mod, check, prop, args, scratch, t0):
     evidence = {
         "property_id": prop, "tier": args.tier, "seed": args.seed, "level": mod.LEVEL,
         "coverage": coverage, "assumptions": list(getattr(mod, "ASSUMPTIONS", [])),
-        "wall_s": round(time.time() - t0, 2), "violations": len(new),
+        "wall_s": round(time.time() - t0, 2), "violations": total_new,
     }
     os.makedirs(os.path.join(OUT, "evidence"), exist_ok=True)
     with open(os.path.join(OUT, "evidence", f"{prop}.json"), "w", encoding="utf-8") as f:
         json.dump(evidence, f, indent=1, ensure_ascii=False, default=str)
 
     print(f"{prop} tier={args.tier} seed={args.seed}: {agg['evaluations']} evaluations, {distinct_n} distinct non-trivial, "
-          f"{len(new)} violations, {len(seen_known)} known findings observed, {len(agg['inconclusive'])} inconclusive notes, "
+          f"{total_new} violations, {len(seen_known)} known findings observed, {len(agg['inconclusive'])} inconclusive notes, "
           f"{evidence['wall_s']}s")
     for k, v in sorted(agg["counters"].items()):
         print(f"  counter {k} = {v}")
@@ -234,8 +244,6 @@ def run(mod, check, prop, args, scratch, t0):
         for v, path in zip(new, replay_paths):
             print(f"  violation: {v['what'][:600]}")
             print(f"VIOLATION property={prop} replay={path}")
-        if len(new) > len(replay_paths):
-            print(f"  ... and {len(new) - len(replay_paths)} more violations without replay files")
         return 1
     if agg["inconclusive"]:
         for m in agg["inconclusive"][:10]:
